@@ -595,6 +595,13 @@ def _proposals(prog):
                         else:
                             undecided.append(U(leaf)[:120])
                 if undecided and not problems:
+                    # the fold may be written arithmetically or delegated to a helper: C04.fold-form decides it on the expanded value
+                    # of the method (one exact divmod of (draw - lo, hi - lo), parity, both arms) - accepted here when all of it holds
+                    from .C04 import _fold_forms
+                    ff_ = [o_ for o_ in _fold_forms(prog) if "boundary_proposal" in o_.construct]
+                    if ff_ and all(o_.ok for o_ in ff_):
+                        los, ws, his, undecided = {"lo"}, {"w"}, {"hi"}, []
+                if undecided and not problems:
                     raise AnalysisError(f"proposal-symmetric: returned term `{undecided[0]}` of Parameter.{mname} is not one of the two fold "
                                         f"arms lo + (draw - lo) % w / hi - (draw - lo) % w - not decided")
                 if not problems:
